@@ -62,6 +62,15 @@ STRENGTHENED = {
  'C17_7': 'missed at first (the distance kernel of gd is SciPy C code, checked by contract on <= 3 reference points) -> concrete reference fronts of 11, 12, 40 and 150 points; the spatial stub forwards what it does not model',
  'C18_7': 'missed at first (personal best with at most 2 objectives) -> 4 and 5 objectives',
  'C19_7': 'missed at first (train_step <= 3, at most 4 / 7 requests) -> scripted accept/decline patterns of 14-25 requests with train_step 4, 5, 7 (values symbolic)',
+ 'C03_8': 'inconclusive at first (`math.isclose` of proxies) -> isclose in the math shim, installed in artap.operators for the truncation harness',
+ 'C04_8': 'missed at first (0/1 feasibility markers only) -> real-valued markers of any sign for the Pareto comparator (for the epsilon comparator the equal-magnitude opposite-sign pairs are excluded: not fixed by the property)',
+ 'C05_8': 'missed at first (every batch listed distinct objects) -> the same design object listed twice in one batch',
+ 'C06_8': 'missed at first (serial evaluation only) -> the parallel path (max_processes = 2) with one design per batch and scripted outcomes: what the caller sees',
+ 'C09_8': 'missed by the quick tier at first (the constrained inductive step was thorough-only and caught it) -> moved into the quick tier',
+ 'C10_8': 'missed at first (store runs with the default evaluator) -> sweep runs with the gradient and the worst-case evaluator attached to a store',
+ 'C12_8': 'inconclusive at first (the loop body cut out of `_van_der_corput` no longer exists after the vectorisation) -> concrete supplement: last points of the sequence for sample counts around every power of the first seven prime bases',
+ 'C19_8': 'missed at first (training set empty at the start) -> training set seeded with 1, 3 (2, 5) samples before the requests',
+ 'C20_8': 'inconclusive at first (`math.isclose` of proxies) -> math shim in artap.individual',
  'C20_4': 'inconclusive at first (`hash(point)` inside the library hit the int-only builtin) -> shim calls the real `__hash__`; the real CPython collision hash(-1.0) == hash(-2.0) as model-selection hint so that the counterexample replays',
 }
 print('| seed | change (abridged) | needs | verdict of the check(s) on the patched tree | note |')
